@@ -1515,6 +1515,60 @@ def w_hist(task: dict) -> dict:
     return t.result()
 
 
+# ---------------------------------------------------------------------------------------------
+# task kind "pathreuse": the same key FILE NAMES carrying different keys over time (a provisioning script that regenerates
+# keys into one project directory and recomputes the fuse value in the same process).  The value must follow the file
+# content: equal to what the same keys give when handed over as bytes / through the fixture's own, never rewritten files.
+
+
+def w_pathreuse(task: dict) -> dict:
+    t = Tally(task)
+    src = Src()
+    wctx = _worker_setup()
+    alg, n = task["alg"], task["n"]
+    pool = POOLS[alg]
+    try:
+        gens = [[pool[(g + i) % len(pool)] for i in range(n)] for g in range(task["gens"])]
+        for spec in _specs(task["tier"]) + dat_spec(alg, n):
+            if not spec.get("path_encs") or spec.get("nodep"):
+                continue
+            enc = spec["base"] if spec["base"] in spec["path_encs"] else spec["path_encs"][0]
+            idx = 0 if spec.get("idx") else None
+            slots = [os.path.join(wctx["tmp"], f"slot{i}.{EXT[enc]}") for i in range(n)]
+            dims = {"path": spec["id"], "alg": alg, "n": n}
+            for g, names in enumerate(gens):
+                for sl, nm in zip(slots, names):
+                    with open(sl, "wb") as f:
+                        f.write(src.m["blobs"][(nm, enc)])
+                    os.utime(sl, (1_700_000_000 + g, 1_700_000_000 + g))   # a new generation has a newer mtime, nothing else is promised
+                wctx["dck"] = src.path(names[0], "pub_pem")
+                wctx["rotk"] = [src.path(nm, "priv_pem") for nm in names]
+                st1, v1 = call(lambda: spec["fn"](list(slots), idx, wctx))[:2]
+                if spec["transport"] == "bytes":
+                    other = [src.get(nm, enc, "bytes") for nm in names]
+                else:
+                    other = [src.path(nm, enc) for nm in names]
+                st2, v2 = call(lambda: spec["fn"](other, idx, wctx))[:2]
+                t.count("evaluations", 2)
+                if st1 != "ok" or st2 != "ok":
+                    if st1 != st2 and g > 0:
+                        t.fail("C03.path-reuse", spec["cons"], "refused-after-rewrite", dims,
+                               f"{spec['id']} {alg} generation {g} {names}: rewritten files -> {st1}: {v1}; same keys otherwise -> {st2}", {"path": spec["id"]})
+                    t.count("pathreuse_refused")
+                    if g == 0:
+                        break   # this path does not take this key list at all
+                    continue
+                t.judged(spec["cons"], dict(dims, generation=g))
+                if _hx(v1["hash"]) != _hx(v2["hash"]):
+                    t.fail("C03.path-reuse", spec["cons"], "stale-value-after-files-rewritten" if g > 0 else "first-use-differs", dims,
+                           f"{spec['id']} {alg}: generation {g} keys {names} written to the file names used before give {_hx(v1['hash'])[:32]}.., "
+                           f"the same keys supplied {'as bytes' if spec['transport'] == 'bytes' else 'through other files'} give {_hx(v2['hash'])[:32]}..",
+                           {"path": spec["id"]})
+    finally:
+        shutil.rmtree(wctx["tmp"], ignore_errors=True)
+    return t.result()
+
+
 def worker(task: dict) -> dict:
     k = task["k"]
     if k == "hist":
@@ -1527,6 +1581,8 @@ def worker(task: dict) -> dict:
         return w_family(task)
     if k == "field":
         return w_field(task)
+    if k == "pathreuse":
+        return w_pathreuse(task)
     raise core.HarnessError(f"unknown task kind {k}")
 
 
@@ -1552,6 +1608,9 @@ def build_tasks(tier: str, seed: int) -> list:
         for seq in sequences():
             tasks.append({"k": "seq", "alg": alg, "seq": seq, "tier": tier, "seed": seed})
     q = tier == "quick"
+    for alg in ALGS:
+        for n in ((1, 4) if q else (1, 2, 3, 4)):
+            tasks.append({"k": "pathreuse", "alg": alg, "n": n, "gens": 3, "tier": tier})
     # operation histories: every sequence of <= depth operations, one task per first operation
     for cls, depth in (("RKHTv1", 4 if q else 5), ("CertBlockV1", 4 if q else 5), ("CertBlockV1/empty", 0 if q else 4)):
         if depth:
